@@ -294,6 +294,9 @@ def trusted_scan(gen_text):
 def write_evidence(pid, tier, seed, runs, dec, wall, kani=None):
     os.makedirs(EVID, exist_ok=True)
     obs = dec['obligations']
+    # bounded stand-ins are reported on their own and never counted among the proved obligations
+    bounded = [o for o in obs if 'BOUNDED' in o.get('backend', '')]
+    obs_all = obs; obs = [o for o in obs if o not in bounded]
     n = sum(1 for o in obs if o['status'] != 'known-finding'); disch = sum(1 for o in obs if o['status'] == 'discharged')
     trusted = []
     fns = []
@@ -325,6 +328,7 @@ def write_evidence(pid, tier, seed, runs, dec, wall, kani=None):
             'per_obligation': [{k: o.get(k) for k in ('id', 'tags', 'unit', 'function', 'kind', 'backend', 'status', 'why', 'finding', 'src') if o.get(k) is not None} for o in obs],
             'undischarged': [o['id'] + ' @ ' + o['function'] for o in obs if o['status'] != 'discharged'],
             'known_findings_seen': [{'id': k['id'], 'obligation': o['id'], 'function': o['function'], 'witness_reproduced_output': k.get('_witness_output', '')} for k, o in dec['known_seen']],
+            'bounded_checks_not_counted_as_proved': [{'id': o['id'], 'harness': o['function'], 'bound_and_claim': o['clause'], 'backend': o['backend'], 'status': o['status']} for o in bounded],
             'reachability_twins': twins,
             'samples': [{'id': o['id'], 'function': o['function'], 'clause': o['clause']} for o in obs[:6]],
             'solver_time_s': round(solver_s, 2),
@@ -396,8 +400,10 @@ def check(pid, tier, seed):
         for o in dec['undecided'][:10]:
             print('UNDECIDED:', o.get('id', o.get('unit')), '-', o.get('why', '')[:300])
         rc = 2
-    n = len(dec['obligations']); d = sum(1 for o in dec['obligations'] if o['status'] == 'discharged')
-    print(f'{pid}: {d}/{n} obligations discharged, {len(dec["violations"])} violations, {len(dec["known_seen"])} known findings, {len(dec["undecided"])} undecided, {wall:.1f}s')
+    nb = [o for o in dec['obligations'] if 'BOUNDED' in o.get('backend', '')]
+    n = len(dec['obligations']) - len(nb); d = sum(1 for o in dec['obligations'] if o['status'] == 'discharged' and o not in nb)
+    bt = f' (+{sum(1 for o in nb if o["status"] == "discharged")}/{len(nb)} bounded checks passed, not counted as proved)' if nb else ''
+    print(f'{pid}: {d}/{n} obligations discharged{bt}, {len(dec["violations"])} violations, {len(dec["known_seen"])} known findings, {len(dec["undecided"])} undecided, {wall:.1f}s')
     return rc
 
 
